@@ -441,18 +441,23 @@ func (p *RawPeer) NeedsTLS() bool { return p.Kind == "tcp" && p.pause && !p.TLS 
 func (p *RawPeer) UpgradeTLS(server bool) error {
 	srvCfg, cliCfg := TLSConfigs()
 	p.reader.WaitFor(time.Minute)
+	// the envelope delimiter behind the last cleartext envelope may still be on its way: like any
+	// robust endpoint the scripted one skips JSON whitespace in front of the first TLS record
+	under := &wsSkipConn{Conn: p.raw}
 	var tc *tls.Conn
 	if server {
-		tc = tls.Server(p.raw, srvCfg)
+		tc = tls.Server(under, srvCfg)
 	} else {
-		tc = tls.Client(p.raw, cliCfg)
+		tc = tls.Client(under, cliCfg)
 	}
 	tc.SetDeadline(time.Now().Add(40 * time.Second))
 	err := tc.Handshake()
 	tc.SetDeadline(time.Time{})
 	if err != nil {
 		p.note("tls", nil, "", "handshake failed: "+err.Error())
-		p.startReader()
+		// what follows on this connection may be TLS records, whose bytes are random: they are
+		// counted, never interpreted (interpreting them would make the run depend on them)
+		p.startDrain()
 		return err
 	}
 	p.conn = tc
@@ -460,6 +465,56 @@ func (p *RawPeer) UpgradeTLS(server bool) error {
 	p.note("tls", nil, "", "upgraded")
 	p.startReader()
 	return nil
+}
+
+// wsSkipConn discards the JSON whitespace that precedes the first TLS record.
+type wsSkipConn struct {
+	net.Conn
+	started bool
+}
+
+func (c *wsSkipConn) Read(b []byte) (int, error) {
+	for {
+		n, err := c.Conn.Read(b)
+		if c.started {
+			return n, err
+		}
+		i := 0
+		for i < n && (b[i] == '\n' || b[i] == '\r' || b[i] == ' ' || b[i] == '\t') {
+			i++
+		}
+		if i < n {
+			c.started = true
+			return copy(b, b[i:n]), err
+		}
+		if err != nil || len(b) == 0 {
+			return 0, err
+		}
+	}
+}
+
+// startDrain reads the connection to its end without looking at the bytes.
+func (p *RawPeer) startDrain() {
+	done := NewFlag()
+	p.reader = done
+	p.pause = false
+	conn := p.conn
+	go func() {
+		defer done.Set()
+		buf := make([]byte, 4096)
+		total := 0
+		for {
+			n, err := conn.Read(buf)
+			total += n
+			if err != nil {
+				if !p.closed.IsSet() {
+					p.note("s-close", nil, "", fmt.Sprintf("after %d uninterpreted bytes: %v", total, err))
+					p.closed.Set()
+				}
+				return
+			}
+		}
+	}()
 }
 
 // ResumeCleartext resumes reading without upgrading (a peer that ignores the negotiated TLS).
